@@ -466,14 +466,17 @@ package sarama
 //@   ensures[size] pe.length == old(pe.length) + 1
 //@   modifies pe.length
 //@ func (pe *prepEncoder) putInt16(in) props C09
+//@   refines packetEncoder.putInt16
 //@   requires pe.length >= 0 && pe.length <= 4611686018427387904
 //@   ensures[size] pe.length == old(pe.length) + 2
 //@   modifies pe.length
 //@ func (pe *prepEncoder) putInt32(in) props C09
+//@   refines packetEncoder.putInt32
 //@   requires pe.length >= 0 && pe.length <= 4611686018427387904
 //@   ensures[size] pe.length == old(pe.length) + 4
 //@   modifies pe.length
 //@ func (pe *prepEncoder) putInt64(in) props C09
+//@   refines packetEncoder.putInt64
 //@   requires pe.length >= 0 && pe.length <= 4611686018427387904
 //@   ensures[size] pe.length == old(pe.length) + 8
 //@   modifies pe.length
@@ -491,6 +494,7 @@ package sarama
 //@   modifies pe.length
 //@ func (pe *prepEncoder) putArrayLength(in) props C09
 //@   returns err
+//@   refines packetEncoder.putArrayLength
 //@   requires pe.length >= 0 && pe.length <= 4611686018427387904
 //@   ensures[size] err == nil ==> pe.length == old(pe.length) + 4
 //@   ensures[err] (err == nil) == (in <= 2147483647)
@@ -582,18 +586,21 @@ package sarama
 //@   ensures[frame] off(re.raw) == old(off(re.raw)) && forall k :: (k < off(re.raw) + old(re.off) || k >= off(re.raw) + re.off) ==> arr(re.raw)[k] == old(arr(re.raw)[k])
 //@   modifies re.off, re.raw
 //@ func (re *realEncoder) putInt16(in) props C09
+//@   refines packetEncoder.putInt16
 //@   requires re.valid() && re.off + 2 <= len(re.raw)
 //@   ensures[adv] re.off == old(re.off) + 2 && len(re.raw) == old(len(re.raw))
 //@   ensures[value] wrap16(be16(arr(re.raw), off(re.raw) + old(re.off))) == in
 //@   ensures[frame] off(re.raw) == old(off(re.raw)) && forall k :: (k < off(re.raw) + old(re.off) || k >= off(re.raw) + re.off) ==> arr(re.raw)[k] == old(arr(re.raw)[k])
 //@   modifies re.off, re.raw
 //@ func (re *realEncoder) putInt32(in) props C09
+//@   refines packetEncoder.putInt32
 //@   requires re.valid() && re.off + 4 <= len(re.raw)
 //@   ensures[adv] re.off == old(re.off) + 4 && len(re.raw) == old(len(re.raw))
 //@   ensures[value] wrap32(be32(arr(re.raw), off(re.raw) + old(re.off))) == in
 //@   ensures[frame] off(re.raw) == old(off(re.raw)) && forall k :: (k < off(re.raw) + old(re.off) || k >= off(re.raw) + re.off) ==> arr(re.raw)[k] == old(arr(re.raw)[k])
 //@   modifies re.off, re.raw
 //@ func (re *realEncoder) putInt64(in) props C09
+//@   refines packetEncoder.putInt64
 //@   requires re.valid() && re.off + 8 <= len(re.raw)
 //@   ensures[adv] re.off == old(re.off) + 8 && len(re.raw) == old(len(re.raw))
 //@   ensures[value] wrap64(be64(arr(re.raw), off(re.raw) + old(re.off))) == in
@@ -613,6 +620,7 @@ package sarama
 //@   modifies re.off, re.raw
 //@ func (re *realEncoder) putArrayLength(in) props C09
 //@   returns err
+//@   refines packetEncoder.putArrayLength
 //@   requires re.valid() && re.off + 4 <= len(re.raw) && -1 <= in && in <= 2147483647
 //@   ensures[adv] err == nil && re.off == old(re.off) + 4 && len(re.raw) == old(len(re.raw))
 //@   ensures[value] wrap32(be32(arr(re.raw), off(re.raw) + old(re.off))) == in
@@ -2034,6 +2042,63 @@ package sarama
 //@   requires pd.remaining() >= 0
 //@   ensures[state] 0 <= pd.remaining() && pd.remaining() <= old(pd.remaining())
 //@   loop 0: invariant 0 <= pd.remaining() && pd.remaining() <= old(pd.remaining()) && 0 <= i && (numTransact >= 0 ==> len(b.AbortedTransactions) == numTransact)
+//@   loop 0: invariant[header_so_far] version >= 4 && i <= ite(numTransact > 0, numTransact, 0) && old(pd.remaining()) - pd.remaining() == 2 + 8 + 8 + ite(version >= 5, 8, 0) + 4 + 16 * i
 //@   loop 1: invariant 0 <= pd.remaining() && pd.remaining() <= old(pd.remaining()) && recordsDecoder.remaining() >= 0
 //@   loop 1: decreases recordsDecoder.remaining()
+// (C09) the records length is read after exactly the header the encoder writes for this version
+// (a null (-1) transaction array reads like an empty one and leaves b.AbortedTransactions alone: hence the two cases)
+//@   callsite packetDecoder.getInt32: requires[header_shape @C09] version < 11 ==> old(pd.remaining()) - pd.remaining() == fetchHeader(version, 0) || old(pd.remaining()) - pd.remaining() == fetchHeader(version, len(b.AbortedTransactions))
+//@   decoder_frame
+
+// ---------------------------------------------------------------------------------------------
+// Wire shape of a fetch-response partition block per protocol version (C09): the encoder writes, and the decoder
+// reads, the same fixed header before the records: error code (2), high-water mark (8); from v4 the last stable
+// offset (8), from v5 also the log start offset (8), then the aborted-transaction array (4 + 16 each); from v11 the
+// preferred read replica (4); then the records length (4). One expression (fetchHeader) is the specification for
+// both directions, so a version gate that differs between encode and decode fails one of the two call-site clauses.
+// Abstract state of a packetEncoder: offset() (bytes written so far); the two implementations refine the primitive
+// contracts (prepEncoder: length, realEncoder: off). The realEncoder's capacity preconditions are not visible at the
+// interface: that the real pass has the room the prepare pass computed is what encode() establishes (C09, C16).
+
+//@ func (pe packetEncoder) offset() pure
+//@ func (pe *prepEncoder) offset() pure
+//@ func (re *realEncoder) offset() pure
+//@ func (pe packetEncoder) putInt16(in) props C09
+//@   ensures[adv] pe.offset() == old(pe.offset()) + 2
+//@   modifies pe.*
+//@ func (pe packetEncoder) putInt32(in) props C09
+//@   ensures[adv] pe.offset() == old(pe.offset()) + 4
+//@   modifies pe.*
+//@ func (pe packetEncoder) putInt64(in) props C09
+//@   ensures[adv] pe.offset() == old(pe.offset()) + 8
+//@   modifies pe.*
+//@ func (pe packetEncoder) putArrayLength(in) props C09
+//@   returns err
+//@   ensures[adv] err == nil ==> pe.offset() == old(pe.offset()) + 4
+//@   modifies pe.*
+//@ func (pe packetEncoder) push(in) trusted
+//@   modifies pe.*, in.*
+//@ func (pe packetEncoder) pop() trusted
+//@   returns err
+//@   modifies pe.*
+
+//@ ghost func fetchHeader(int16, int) int
+//@ axiom[fetchHeader] forall v int16, n int :: fetchHeader(v, n) == 2 + 8 + ite(v >= 4, 8 + ite(v >= 5, 8, 0) + 4 + 16 * n, 0) + ite(v >= 11, 4, 0)
+
+//@ func (t *AbortedTransaction) encode(pe) props C09
+//@   returns err
+//@   ensures[size] err == nil && pe.offset() == old(pe.offset()) + 16
+//@   nosafety
+
+//@ func (b *FetchResponseBlock) encode(pe, version) props C09
+//@   returns err
+//@   callsite packetEncoder.push#0: requires[header_shape] pe.offset() == old(pe.offset()) + fetchHeader(version, len(b.AbortedTransactions))
+//@   loop 0: invariant pe.offset() == old(pe.offset()) + 2 + 8 + 8 + ite(version >= 5, 8, 0) + 4 + 16 * $i && version >= 4
+//@   nosafety
+
+//@ func (t *AbortedTransaction) decode(pd) props C10 C09
+//@   returns err
+//@   requires pd.remaining() >= 0
+//@   ensures[state] 0 <= pd.remaining() && pd.remaining() <= old(pd.remaining())
+//@   ensures[size @C09] err == nil ==> pd.remaining() == old(pd.remaining()) - 16
 //@   decoder_frame
